@@ -329,6 +329,42 @@ def serve : List String → List Req → List Outcome
     let o := checks (countOf calls (testName r)) r
     o :: serve (if o.rejected then calls else testName r :: calls) rs
 
+/-! ### the handler chain `createServer` builds in reference mode
+
+`cors ∘ [tracing] ∘ rawResponder ∘ referenceServerChecks ∘ pretendHTTP2 ∘ mux`: the checks run on
+the request as it arrived; only the innermost wrapper, directly around connect-go's mux,
+presents an HTTP/1.x request for the BidiStream procedure as HTTP/2 (connect-go refuses bidi
+streams below HTTP/2; the conformance suite tests half-duplex bidi over HTTP/1.1). CORS,
+tracing and the raw responder do not touch what the checks read. -/
+
+def bidiStreamProcedure : String := "/connectrpc.conformance.v1.ConformanceService/BidiStream"
+
+def hasSuffix (s p : String) : Bool := p.toList.reverse.isPrefixOf s.toList.reverse
+
+/-- the wrapper around the mux: `req.ProtoMajor, req.ProtoMinor = 2, 0` for HTTP/1 bidi -/
+def pretendHTTP2 (path : String) (r : Req) : Req :=
+  if hasSuffix path bidiStreamProcedure && r.major == 1 then { r with major := 2 } else r
+
+structure ChainOutcome where
+  /-- what `referenceServerChecks` made of the request -/
+  outcome : Outcome
+  /-- the request connect-go's mux receives (`none`: rejected before) -/
+  inner : Option Req
+  deriving Repr, DecidableEq
+
+/-- one request for URL path `path` through the chain; `count` as in `checks` -/
+def serverChain (count : Nat) (path : String) (r : Req) : ChainOutcome :=
+  let o := checks count r
+  { outcome := o
+    inner := if o.rejected then none else some (pretendHTTP2 path (afterTimeout r)) }
+
+/-- a sequence of requests (all for `path`) against one server -/
+def serveChain (path : String) : List String → List Req → List ChainOutcome
+  | _, [] => []
+  | calls, r :: rs =>
+    let o := serverChain (countOf calls (testName r)) path r
+    o :: serveChain path (if o.outcome.rejected then calls else testName r :: calls) rs
+
 /-! ### how a conformant client presents a tuple of aspects -/
 
 inductive Version | h1 | h2 | h3 deriving DecidableEq, Repr
